@@ -9,14 +9,14 @@ Open Scope Z_scope.
 (* outbuf_high_watermark = 0 (F23): the producer waits while total > 0, the consumer
    notifies only if total < 0 *)
 Definition cfg_hw0 : cfg := mkCfg 0 2 0 false.
-Definition sched_hw0 : list choice := [CIo; CIo; CIo; CIo; CIo; CIo; CIo; CClient [IReq]; CIo; CIoRecv true false; CIo; CIo; CIo; CIo; CIo; CIo; CIo; CIo; CIo; CIo; CIo; CW 0; CW 0; CWApp 0 (Some 3) false; CW 0; CW 0; CW 0; CW 0; CW 0; CIo; CW 0; CWSend 0 SZero; CW 0; CW 0; CWApp 0 (Some 1) false; CW 0; CW 0; CW 0; CWSend 0 SZero; CW 0; CW 0; CW 0; CIo; CIo; CIo; CW 0; CIo; CIoSend (SOk 3); CIo; CIo; CIo; CIo; CIo; CIo; CIo; CIo; CIo; CIo; CIo].
+Definition sched_hw0 : list choice := [CIo; CIo; CIo; CIo; CIo; CIo; CIo; CClient [IReq]; CIo; CIoRecv true false; CIo; CIo; CIo; CIo; CIo; CIo; CIo; CIo; CIo; CIo; CIo; CW 0; CW 0; CW 0; CWApp 0 (Some 3) false; CW 0; CW 0; CW 0; CW 0; CW 0; CIo; CW 0; CWSend 0 SZero; CW 0; CW 0; CWApp 0 (Some 1) false; CW 0; CW 0; CW 0; CWSend 0 SZero; CW 0; CW 0; CW 0; CIo; CIo; CIo; CW 0; CIo; CIoSend (SOk 3); CIo; CIo; CIo; CIo; CIo; CIo; CIo; CIo; CIo; CIo; CIo].
 
 (* park after close: _flush_outbufs_below_high_watermark called at the end of service()
    (len(requests) > 1) reads total > high_watermark, the I/O thread closes the channel, the
    worker's flush raises on the closed socket, and the exception branch waits for a notify
    that handle_close has already given *)
 Definition cfg_pac : cfg := mkCfg 1 2 2 true.
-Definition sched_pac : list choice := [CIo; CIo; CIo; CIo; CIo; CIo; CIo; CClient [IReq; IReq]; CIo; CIoRecv true false; CIo; CIo; CIo; CIo; CIo; CIo; CIo; CIo; CIo; CIo; CIo; CW 0; CW 0; CWApp 0 (Some 3) false; CW 0; CW 0; CW 0; CW 0; CW 0; CW 0; CWSend 0 SErr; CIo; CIo; CIo; CIo; CIo; CIo; CIo; CIo; CW 0; CW 0; CIo; CWApp 0 None false; CW 0; CW 0; CIoClose true; CIo; CIo; CIo; CIo; CW 0; CWSend 0 SErr; CW 0; CIo; CW 0; CW 1].
+Definition sched_pac : list choice := [CIo; CIo; CIo; CIo; CIo; CIo; CIo; CClient [IReq; IReq]; CIo; CIoRecv true false; CIo; CIo; CIo; CIo; CIo; CIo; CIo; CIo; CIo; CIo; CIo; CW 0; CW 0; CW 0; CWApp 0 (Some 3) false; CW 0; CW 0; CW 0; CW 0; CW 0; CW 0; CWSend 0 SErr; CIo; CIo; CIo; CIo; CIo; CIo; CIo; CIo; CW 0; CW 0; CIo; CWApp 0 None false; CW 0; CW 0; CIoClose true; CIo; CIo; CIo; CIo; CW 0; CWSend 0 SErr; CW 0; CIo; CW 0; CW 1].
 
 (* the head of an expecting request arrives while a request is in service; at the end of
    service() the worker executes send_continue, whose flush is NOT wrapped by _flush_exception:
@@ -24,7 +24,7 @@ Definition sched_pac : list choice := [CIo; CIo; CIo; CIo; CIo; CIo; CIo; CClien
    pull_trigger is skipped and the 25 bytes of "100 Continue" stay buffered with the I/O thread
    asleep *)
 Definition cfg_cont : cfg := mkCfg 0 1 100 false.
-Definition sched_cont : list choice := [CIo; CIo; CIo; CIo; CIo; CIo; CIo; CClient [IReq; IHead]; CIo; CIoRecv true false; CIo; CIo; CIo; CIo; CIo; CIo; CIo; CIo; CIo; CIo; CIo; CIo; CIo; CIo; CIo; CW 0; CW 0; CWApp 0 None false; CW 0; CW 0; CW 0; CW 0; CW 0; CW 0; CW 0; CW 0; CWSend 0 SErr; CW 0; CW 0; CW 0].
+Definition sched_cont : list choice := [CIo; CIo; CIo; CIo; CIo; CIo; CIo; CClient [IReq; IHead]; CIo; CIoRecv true false; CIo; CIo; CIo; CIo; CIo; CIo; CIo; CIo; CIo; CIo; CIo; CIo; CIo; CIo; CIo; CW 0; CW 0; CW 0; CWApp 0 None false; CW 0; CW 0; CW 0; CW 0; CW 0; CW 0; CW 0; CW 0; CWSend 0 SErr; CW 0; CW 0; CW 0].
 
 Definition bad_quiescent (c : cfg) (nw : nat) (sched : list choice) : bool :=
   let s := run (step c) (init nw) sched in
@@ -53,7 +53,7 @@ Proof. vm_compute. repeat split. Qed.
    watermark wait at the end of the first service(), Connection: close on the second): it
    ends in a quiescent state outside the finding classes, closed, with nothing pending *)
 Definition cfg_example : cfg := mkCfg 0 50 120 false.
-Definition sched_example : list choice := [CW 0; CW 1; CIo; CIo; CIo; CIo; CIo; CIo; CIo; CClient [IReq; IReq]; CIo; CIoRecv true false; CIo; CIo; CIo; CIo; CIo; CIo; CIo; CIo; CIo; CIo; CIo; CIo; CIo; CIo; CIo; CIo; CIo; CW 0; CW 0; CWApp 0 (Some 95) false; CW 0; CW 0; CW 0; CW 0; CW 0; CW 0; CWSend 0 (SOk 20); CWSend 0 SZero; CW 0; CW 0; CW 0; CWApp 0 (Some 10) false; CW 0; CW 0; CW 0; CW 0; CW 0; CW 0; CWSend 0 (SOk 85); CW 0; CW 0; CW 0; CWApp 0 (Some 300) false; CW 0; CW 0; CW 0; CW 0; CW 0; CW 0; CWSend 0 (SOk 90); CWSend 0 SZero; CW 0; CW 0; CW 0; CWApp 0 None false; CW 0; CW 0; CW 0; CWSend 0 (SOk 210); CW 0; CW 0; CW 0; CW 0; CW 0; CW 0; CW 0; CW 0; CW 0; CW 0; CW 0; CW 0; CW 0; CWApp 0 (Some 112) false; CW 0; CW 0; CW 0; CW 0; CW 0; CW 0; CWSend 0 (SOk 112); CW 0; CW 0; CW 0; CWApp 0 (Some 5) false; CW 0; CW 0; CW 0; CW 0; CW 0; CW 0; CW 0; CWApp 0 None true; CW 0; CW 0; CW 0; CW 0; CW 0; CW 0; CW 0; CW 1; CIo; CIo; CIo; CIo; CIo; CIo; CIo; CIoSend (SOk 5); CIo; CIo; CIo; CIo; CIo; CIo; CIo; CIo; CIo; CIo; CIoClose false; CIo; CIo; CIo; CIo].
+Definition sched_example : list choice := [CW 0; CW 1; CIo; CIo; CIo; CIo; CIo; CIo; CIo; CClient [IReq; IReq]; CIo; CIoRecv true false; CIo; CIo; CIo; CIo; CIo; CIo; CIo; CIo; CIo; CIo; CIo; CIo; CIo; CIo; CIo; CIo; CIo; CW 0; CW 0; CW 0; CWApp 0 (Some 95) false; CW 0; CW 0; CW 0; CW 0; CW 0; CW 0; CWSend 0 (SOk 20); CWSend 0 SZero; CW 0; CW 0; CW 0; CWApp 0 (Some 10) false; CW 0; CW 0; CW 0; CW 0; CW 0; CW 0; CWSend 0 (SOk 85); CW 0; CW 0; CW 0; CWApp 0 (Some 300) false; CW 0; CW 0; CW 0; CW 0; CW 0; CW 0; CWSend 0 (SOk 90); CWSend 0 SZero; CW 0; CW 0; CW 0; CWApp 0 None false; CW 0; CW 0; CW 0; CWSend 0 (SOk 210); CW 0; CW 0; CW 0; CW 0; CW 0; CW 0; CW 0; CW 0; CW 0; CW 0; CW 0; CW 0; CW 0; CW 0; CWApp 0 (Some 112) false; CW 0; CW 0; CW 0; CW 0; CW 0; CW 0; CWSend 0 (SOk 112); CW 0; CW 0; CW 0; CWApp 0 (Some 5) false; CW 0; CW 0; CW 0; CW 0; CW 0; CW 0; CW 0; CWApp 0 None true; CW 0; CW 0; CW 0; CW 0; CW 0; CW 0; CW 0; CW 1; CIo; CIo; CIo; CIo; CIo; CIo; CIo; CIoSend (SOk 5); CIo; CIo; CIo; CIo; CIo; CIo; CIo; CIo; CIo; CIo; CIoClose false; CIo; CIo; CIo; CIo].
 
 Lemma example_run :
   let s := run (step cfg_example) (init 2) sched_example in
